@@ -16,7 +16,7 @@ from .. import common
 from . import c08files
 
 PROP = "C09"
-MODULES = ["XpmVerif.Properties.C09Files"]
+MODULES = ["XpmVerif.Properties.C09Files", "XpmVerif.Properties.C09Watch", "XpmVerif.Properties.C09Fair", "XpmVerif.Properties.C11Files", "XpmVerif.Properties.TokSrc"]
 
 _OBSERVER_SCRIPT = r'''
 import sys, time, tempfile, logging, shutil, json
